@@ -55,7 +55,14 @@ func check(c Case) (pbt.Info, error) {
 	seq := cont.Seq()
 	n := len(seq)
 	cur := cont.Iterator()
-	p := -1
+	p := cont.Start()
+	if p >= 0 {
+		// IteratorAt: the iterator is born on an element; its Key/Value are readable at once
+		if k, v := cur.Pos(), cur.F.Value(); k != seq[p].K || v != seq[p].V {
+			return info, fmt.Errorf("%s n=%d IteratorAt(node of key %d): Key()/Value() = (%d,%d), sequence has (%d,%d) at position %d", c.Spec.Kind, n, *c.Spec.At, k, v, seq[p].K, seq[p].V, p)
+		}
+		info.Label("iterator-at-node")
+	}
 	moves, reversalAtSentinel, restartAtEnd := 0, false, false
 	lastDir := 0
 	for i, call := range c.Calls {
@@ -171,17 +178,27 @@ func genSpec(t *rapid.T, kind string) iters.Spec {
 		s.Cmp = dom.TotalCmps[rapid.IntRange(0, len(dom.TotalCmps)-1).Draw(t, "cmp")]
 	}
 	if kind == "btree" {
-		s.Order = []int{3, 4, 5, 7}[rapid.IntRange(0, 3).Draw(t, "order")]
+		s.Order = []int{3, 4, 5, 7, 9, 16, 33}[rapid.IntRange(0, 6).Draw(t, "order")]
 	}
 	if kind == "circularbuffer" {
 		s.Cap = ringCaps[rapid.IntRange(0, len(ringCaps)-1).Draw(t, "cap")]
 	}
-	maxN := 12
-	if rapid.IntRange(0, 9).Draw(t, "big") == 0 {
+	maxN, hi := 12, 30
+	switch rapid.IntRange(0, 19).Draw(t, "big") {
+	case 0, 1:
 		maxN = 40
+	case 2: // hundreds of elements: 3rd/4th B-tree level, heap index >= 63, tree height > 7
+		maxN, hi = 400, 2000
 	}
-	s.Adds = rapid.SliceOfN(rapid.IntRange(0, 30), 0, maxN).Draw(t, "adds")
-	s.Rems = rapid.SliceOfN(rapid.IntRange(0, 30), 0, 3).Draw(t, "rems")
+	s.Adds = rapid.SliceOfN(rapid.IntRange(0, hi), 0, maxN).Draw(t, "adds")
+	if maxN == 400 {
+		s.Adds = append(s.Adds, rapid.SliceOfN(rapid.IntRange(0, hi), 40, 200).Draw(t, "more")...)
+	}
+	s.Rems = rapid.SliceOfN(rapid.IntRange(0, hi), 0, 3).Draw(t, "rems")
+	if kind == "redblacktree" && len(s.Adds) > 0 && rapid.IntRange(0, 3).Draw(t, "at") == 0 {
+		at := s.Adds[rapid.IntRange(0, len(s.Adds)-1).Draw(t, "atkey")]
+		s.At = &at
+	}
 	return s
 }
 
@@ -198,9 +215,9 @@ func genPred(t *rapid.T) *Pred {
 		a := rapid.IntRange(2, 4).Draw(t, "m")
 		return &Pred{T: "kmod", A: a, B: rapid.IntRange(0, a-1).Draw(t, "r")}
 	case 4:
-		return &Pred{T: "kge", A: rapid.IntRange(0, 12).Draw(t, "th")}
+		return &Pred{T: "kge", A: []int{1, 1, 10, 100}[rapid.IntRange(0, 3).Draw(t, "scale")] * rapid.IntRange(0, 12).Draw(t, "th")}
 	default:
-		return &Pred{T: "veq", A: rapid.IntRange(0, 30).Draw(t, "x")}
+		return &Pred{T: "veq", A: rapid.IntRange(0, 30).Draw(t, "x") * []int{1, 1, 67}[rapid.IntRange(0, 2).Draw(t, "scale")]}
 	}
 }
 
@@ -208,7 +225,11 @@ func gen(kind string) func(t *rapid.T) Case {
 	fwdOnly := iters.ForwardOnly(kind)
 	return func(t *rapid.T) Case {
 		c := Case{Spec: genSpec(t, kind)}
-		n := rapid.IntRange(0, 24).Draw(t, "ncalls")
+		maxCalls := 24
+		if len(c.Spec.Adds) > 40 {
+			maxCalls = 90 // long walks over large containers
+		}
+		n := rapid.IntRange(0, maxCalls).Draw(t, "ncalls")
 		for i := 0; i < n; i++ {
 			var w int
 			if fwdOnly {
